@@ -94,8 +94,20 @@ func c07Slow(c *mon.Case, sp c07Spec) {
 	}, mon.AwaitOpts{}) {
 		return
 	}
-	flog := fast.SentLog()
-	ref = append(ref, sv{binary.BigEndian.Uint32(flog[len(flog)-1].Wire()), last})
+	// the reference entry for the final survey comes from the fast respondent's own copy of it
+	var lastID uint32
+	if !c.AwaitOrViolate("surveyor/survey-not-broadcast", "final survey reaching the fast respondent", func() bool {
+		for _, x := range fast.SentLog() {
+			if wire := x.Wire(); len(wire) >= 4 && bytes.Equal(wire[4:], last) {
+				lastID = binary.BigEndian.Uint32(wire)
+				return true
+			}
+		}
+		return false
+	}, mon.AwaitOpts{}) {
+		return
+	}
+	ref = append(ref, sv{lastID, last})
 	cur = ref[len(ref)-1]
 	pos := 0
 	for _, x := range slow.SentLog() {
